@@ -20,7 +20,8 @@ only which recursions are bounded by the code's OWN counters and which by a fuel
 
 * SYNC engine (`syncStart`, `syncSend`, `transientLoop`, `execActionsF`): these recursions are structural
   on a counter the Python code itself maintains — `iterations` of `_process_transient_transitions` (bounded
-  by `machine.max_iterations`), `_action_depth` of `_execute_actions` (`MAX_ACTION_DEPTH`). The queue drain
+  by `machine.max_iterations`), `_action_depth` of `_execute_actions` (`MAX_ACTION_DEPTH`; the depth counter bounds how DEEP an
+  expansion nests, the flag `_expansion_cut` — `St.expCut`, repair of F77 — ends the whole expansion once it tripped, §2). The queue drain
   `drainLoop` (`_process_event_queue`) is different since the second repair of F10: its counter `chained`
   counts only the dequeues of MARKED events (enqueued while a drain was in flight) and is RESET by a cut, after
   which the loop goes on with the external events — so the code's loop is not bounded by one counter, and the
@@ -233,16 +234,22 @@ example : (drainSteps shortM u0 (drainFuel shortM { running with queue := [⟨.u
       { running with queue := [⟨.user "E", false⟩] }) = (2, false) := by decide
 example : count "sawR@R" (syncSend shortM u0 (.user "E") running) = 1 := by decide
 
-/-! ## 2. nested action expansion (`choose` …) is bounded by the code's depth counter -/
+/-! ## 2. nested action expansion (`choose` …) is bounded by the code's depth counter — and once the
+bound tripped, the rest of that expansion produces no follow-ups (`_expansion_cut`, repair of F77: the
+counter bounds the DEPTH of an expansion, the flag its size; model: `St.expCut`, set at the cut level by
+`assignStep`, read by `builtinStep`, cleared by `endExpansion` when the expansion of a top-level built-in
+is over — the code resets it at the next top-level built-in, before any read) -/
 
 /-- *Clause "self-enqueueing pure/choose/enqueueActions expansion".* `execActions` is `execActionsF`
     with fuel `MAX_ACTION_DEPTH + 1`; a follow-up list of a built-in runs one level deeper, with
-    fuel one less — the recursion is structural on it … -/
+    fuel one less — the recursion is structural on it (`endExpansion f` is the identity except when the
+    built-in sat at the top level, `f = MAX_ACTION_DEPTH`, where it clears `_expansion_cut`) … -/
 theorem execActions_levels (h : Hooks) (as : List ActionRef) (ev : String) (s : St) :
     execActions h as ev s = execActionsF h (Tables.maxActionDepth + 1) as ev s := rfl
 
 theorem execActionsF_succ (h : Hooks) (f : Nat) (as : List ActionRef) (ev : String) (s : St) :
-    execActionsF h (f + 1) as ev s = (as.foldl (actStep h (execActionsF h f) false ev) (s, false)).1 := rfl
+    execActionsF h (f + 1) as ev s =
+      (as.foldl (actStep h (fun fs e s => endExpansion f (execActionsF h f fs e s)) false ev) (s, false)).1 := rfl
 
 /-- … and at fuel 0 no built-in produces follow-ups: the function that would run them is never
     consulted (the result is the same whatever it is), so expansion stops after
@@ -260,6 +267,73 @@ example : ((execActionsF (hooksFlagged u0 fanM) 2 [chooseA] "E" running).ctx,
            (execActionsF (hooksFlagged u0 fanM) 1 [chooseA] "E" running).ctx,
            (execActionsF (hooksFlagged u0 fanM) 0 [chooseA] "E" running).ctx) = ([("x", 1)], [], []) := by
   decide
+
+/-- *Once the bound tripped, the rest of the expansion produces no follow-ups* (`_expansion_cut`; the
+    depth counter alone bounds how DEEP an expansion goes, not how large it is). The trip is recorded: at
+    the cut level every built-in that is reached sets the flag … -/
+theorem cut_level_records_trip (h : Hooks) (hc : HooksCutOK h) (nested : List ActionRef → String → St → St)
+    (ev canon : String) (a : ActionRef) (s : St) :
+    (builtinStep h nested true ev canon a s).1.expCut = true :=
+  builtinStep_cut_trips h hc nested ev canon a s
+
+/-- … it is seen by every later sibling of the same expansion: below the top level a set flag stays set
+    through any list … -/
+theorem trip_persists (h : Hooks) (hc : HooksCutOK h) (fuel : Nat) (hf : fuel ≤ Tables.maxActionDepth)
+    (as : List ActionRef) (ev : String) (s : St) (ht : s.expCut = true) :
+    (execActionsF h fuel as ev s).expCut = true :=
+  execActionsF_tripped h hc fuel hf as ev s ht
+
+/-- … and while it is set a sibling `choose` (in the code also `pure`, `enqueueActions`) produces no
+    follow-ups, at ANY level: the function that would run them is never consulted (the result is the
+    same whatever it is) — the `choose` is a no-op, its guards are not even evaluated. `assign`,
+    `raise`, user actions are not affected. -/
+theorem tripped_choose_no_followups (h : Hooks) (nested nested' : List ActionRef → String → St → St)
+    (ev canon : String) (a : ActionRef) (s : St) (ht : s.expCut = true) :
+    builtinStep h nested false ev canon a s = builtinStep h nested' false ev canon a s :=
+  builtinStep_tripped_ignores_nested h nested nested' ev canon a s ht
+
+theorem tripped_choose_noop (h : Hooks) (nested : List ActionRef → String → St → St) (ev : String)
+    (a : ActionRef) (s : St) (ht : s.expCut = true) (he : s.err = none) :
+    builtinStep h nested false ev Tables.act_CHOOSE a s = (s, false) :=
+  choose_after_trip h nested ev a s ht he
+
+/-- *A fresh top-level list expands again* (`if depth == 0: self._expansion_cut = False`): whatever
+    tripped inside the expansions of a top-level list, the flag is clear when the list is over — and
+    before each of its actions (`foldl_top_expCut`) — so the next top-level built-in starts from scratch. -/
+theorem top_level_starts_fresh (h : Hooks) (hc : HooksCutOK h) (as : List ActionRef) (ev : String) (s : St)
+    (hs : s.expCut = false) : (execActions h as ev s).expCut = false :=
+  execActions_expCut h hc as ev s hs
+
+/-- `choose` with one unguarded branch, as JSON and as an action -/
+def chooseJ (acts : List J) : J :=
+  .obj [("type", .str "choose"), ("params", .obj [("conditions", .arr [.obj [("actions", .arr acts)]])])]
+def chooseR (acts : List J) : ActionRef :=
+  { type := "choose", params := some (.obj [("conditions", .arr [.obj [("actions", .arr acts)]])]) }
+/-- `n` nested `choose`s around the marker `deep`, each followed by a sibling `choose` of the marker `late` -/
+def nestJ : Nat → J
+  | 0 => .str "deep"
+  | n + 1 => chooseJ [nestJ n, chooseJ [.str "late"]]
+
+/-- three levels of fuel, four levels of `choose`: the innermost reached one trips (its sibling marker
+    `m0` still runs — user actions are not affected), the sibling `choose` one level up (`late1`) and the
+    one two levels up (`late2`) then produce nothing -/
+example : (execActionsF (hooksFlagged u0 fanM) 2
+    [chooseR [chooseJ [chooseJ [.str "deep"], .str "m0"], chooseJ [.str "late1"], .str "m1"],
+     chooseR [.str "late2"]] "E" running).trace = ["m1@E", "m0@E"] := by decide
+/-- without a trip the siblings expand -/
+example : (execActionsF (hooksFlagged u0 fanM) 3
+    [chooseR [chooseJ [chooseJ [.str "deep"], .str "m0"], chooseJ [.str "late1"], .str "m1"],
+     chooseR [.str "late2"]] "E" running).trace = ["late2@E", "m1@E", "late1@E", "m0@E", "deep@E"] := by decide
+set_option maxRecDepth 100000 in
+/-- top level, the code's own bound (`MAX_ACTION_DEPTH` = 50): a `choose` nested 53 deep trips — no `late`
+    sibling at any level expands, `deep` is never reached — and the SECOND top-level `choose` expands again -/
+example : let s := execActions (hooksFlagged u0 fanM) [chooseR [nestJ 52], chooseR [.str "fresh"]] "E" running
+    (s.trace, s.expCut) = (["fresh@E"], false) := by decide
+set_option maxRecDepth 100000 in
+/-- three levels less (the innermost sibling `choose` at depth 50) and nothing trips: `deep` runs and every
+    `late` sibling expands -/
+example : let s := execActions (hooksFlagged u0 fanM) [chooseR [nestJ 49], chooseR [.str "fresh"]] "E" running
+    (count "deep@E" s, count "late@E" s, count "fresh@E" s) = (1, 49, 1) := by decide
 
 /-! ## 3. the async run loop terminates: the model fuel is irrelevant -/
 
